@@ -1,10 +1,12 @@
 """C29 A refused porcelain operation changes nothing (DESIGN.md §4.C29)."""
 from props import porcelain_lib as P
+from props import c29ops_lib as _O
 from props.C25 import MODELLED as _M
 
 ID = "C29"
 THEOREMS = ["C29_reset_atomic", "C29_checkout_atomic", "C29_checkout_no_late_refusal", "C29_step_atomic"]
-MODEL_FILES = ["Porcelain.v"]
+MODEL_FILES = ["Porcelain.v", "PorcelainOps.v"]
+THEOREMS = THEOREMS + list(_O.THEOREMS_OPS)
 MODELLED = _M + "; Checkout is modelled in the order of the repaired code (fix: decide every refusal of Checkout before the branch is created and HEAD is moved); C29 covers the error exits of Checkout and Reset (Add and Commit refusals are exercised with the snapshot oracle but not modelled; Restore/Merge/Pull and injected filesystem faults are not covered; deleted blobs / nested trees are oracle-only)"
 TRUSTED = [
     "C-impl: harness/cmd/porcelain vs Model/Porcelain.porcelain_run (result class + snapshot after every op)",
@@ -89,4 +91,10 @@ class Main(P.PorcelainSuite):
         return {"refused_ops": getattr(self, "refusals", 0)}
 
 
-SUITES = [Main()]
+SUITES = [Main()] + list(_O.SUITES_OPS)
+
+try:
+    MODELLED = MODELLED + "; " + _O.MODELLED_OPS
+    TRUSTED = list(globals().get("TRUSTED", [])) + list(_O.TRUSTED_OPS)
+except Exception:
+    pass
